@@ -117,7 +117,7 @@ def main(argv=None):
         k = kf.get((prop, v.rule, v.fn, v.key))
         (old if k else new).append((v, k))
 
-    evdir = os.path.join(VERIF, "evidence")
+    evdir = os.environ.get("VERIF_EVDIR") or os.path.join(VERIF, "evidence")
     os.makedirs(evdir, exist_ok=True)
     vdir = os.path.join(evdir, prop + ".violations")
     if os.path.isdir(vdir):
